@@ -27,6 +27,10 @@ Definition mgr (lo hi : list val) : val := VObj "ParamManager"
     ("_source_param", VObj "SourceParam" []); ("_los_param", VObj "LOSParam" [])] ++
    combine ["_kwargs_lower_cosmo"; "_kwargs_lower_lens"; "_kwargs_lower_kin"; "_kwargs_lower_source"; "_kwargs_lower_los"] lo ++
    combine ["_kwargs_upper_cosmo"; "_kwargs_upper_lens"; "_kwargs_upper_kin"; "_kwargs_upper_source"; "_kwargs_upper_los"] hi).
+(* the code accumulates  acc = [] ; acc += block1 ; acc += block2 ; ... *)
+Definition cat5 {A} (a b c0 d e : list A) : list A := ((((([] ++ a) ++ b) ++ c0) ++ d) ++ e)%list.
+Lemma cat5_eq {A} (a b c0 d e : list A) : cat5 a b c0 d e = (a ++ b ++ c0 ++ d ++ e)%list.
+Proof. unfold cat5. cbn [app]. rewrite <- !app_assoc. reflexivity. Qed.
 Definition M := mgr [VStr "lc"; VStr "ll"; VStr "lk"; VStr "ls"; VStr "lo"] [VStr "uc"; VStr "ul"; VStr "uk"; VStr "us"; VStr "uo"].
 
 (* the running index is threaded cosmo -> lens -> kin -> source -> los, each block starting where the previous one stopped *)
@@ -38,25 +42,25 @@ Proof. yields_auto. Qed.
 Theorem mgr_kwargs2args a1 a2 a3 a4 a5 rg cu :
   yields Gm 60 (CFun src_ParamManager_kwargs2args) (Some M) []
     [("kwargs_lens", a2); ("kwargs_cosmo", a1); ("kwargs_los", a5); ("kwargs_kin", a3); ("kwargs_source", a4)] rg cu
-    (VList (v1 ++ v2 ++ v3 ++ v4 ++ v5)) cu
+    (VList (cat5 v1 v2 v3 v4 v5)) cu
     [("los", [a5]); ("source", [a4]); ("kin", [a3]); ("lens", [a2]); ("cosmo", [a1])].
 Proof. yields_auto. Qed.
 (* names: same order, the style flag handed to every block *)
 Theorem mgr_param_list (latex : bool) rg cu :
   yields Gm 60 (CFun src_ParamManager_param_list) (Some M) [] [("latex_style", VBool latex)] rg cu
-    (VList (n1 ++ n2 ++ n3 ++ n4 ++ n5)) cu
+    (VList (cat5 n1 n2 n3 n4 n5)) cu
     [("los", [VBool latex]); ("source", [VBool latex]); ("kin", [VBool latex]); ("lens", [VBool latex]); ("cosmo", [VBool latex])].
 Proof. destruct latex; yields_auto. Qed.
 (* bounds are the SAME dictionary -> vector map applied to the lower and to the upper bound dictionaries, block by block *)
 Theorem mgr_param_bounds rg cu :
   yields Gm 60 (CFun src_ParamManager_param_bounds) (Some M) [] [] rg cu
-    (VTuple [VList (v1 ++ v2 ++ v3 ++ v4 ++ v5); VList (v1 ++ v2 ++ v3 ++ v4 ++ v5)]) cu
+    (VTuple [VList (cat5 v1 v2 v3 v4 v5); VList (cat5 v1 v2 v3 v4 v5)]) cu
     [("los", [VStr "uo"]); ("source", [VStr "us"]); ("kin", [VStr "uk"]); ("lens", [VStr "ul"]); ("cosmo", [VStr "uc"]);
      ("los", [VStr "lo"]); ("source", [VStr "ls"]); ("kin", [VStr "lk"]); ("lens", [VStr "ll"]); ("cosmo", [VStr "lc"])].
 Proof. yields_auto. Qed.
 (* the number of parameters is the length of the (plain) name list *)
 Theorem mgr_num_param rg cu :
-  yields Gm 60 (CFun src_ParamManager_num_param) (Some M) [] [] rg cu (VInt (Z.of_nat (List.length (n1 ++ n2 ++ n3 ++ n4 ++ n5)))) cu
+  yields Gm 60 (CFun src_ParamManager_num_param) (Some M) [] [] rg cu (VInt (Z.of_nat (List.length (cat5 n1 n2 n3 n4 n5)))) cu
     [("los", [VBool false]); ("source", [VBool false]); ("kin", [VBool false]); ("lens", [VBool false]); ("cosmo", [VBool false])].
 Proof. yields_auto. Qed.
 End MgrCode.
@@ -112,3 +116,42 @@ Proof.
   rewrite firstn_skipn_add. f_equal. replace (i3 + (i4 - i3))%nat with i4 by lia. reflexivity.
 Qed.
 End MgrSem.
+
+(* ---------- 3. constructor wiring: every block receives the manager's own parameter of the same name ---------- *)
+Definition rec_class (cls : string) : callee := COracle (fun args kws w => Ok (VObj cls (("args", VList args) :: kws), w)).
+Definition classes := ["CosmoParam"; "LensParam"; "KinParam"; "SourceParam"; "LOSParam"].
+Definition Gi : fenv := FEnv (fun _ _ => None) (fun n => if existsb (String.eqb n) classes then Some (rec_class n) else None).
+(* every constructor parameter is given its own name as a (symbolic) value, so that a mis-wired argument is visible *)
+Definition tagged : list (string * val) := map (fun p => (fst p, VStr (fst p))) (tl (tl (f_params src_ParamManager_init))).
+(* documented renames: the blocks call their fixed dictionary kwargs_fixed; KinParam calls the anisotropy distribution distribution_function *)
+Definition expected_src (blockname kw : string) : string :=
+  if String.eqb kw "kwargs_fixed" then "kwargs_fixed_" ++ blockname
+  else if String.eqb kw "distribution_function" then "anisotropy_distribution" else kw.
+Definition block_fields := [("_cosmo_param", "cosmo"); ("_lens_param", "lens"); ("_kin_param", "kin"); ("_source_param", "source"); ("_los_param", "los")].
+Definition kws_ok (blockname : string) (o : val) : bool :=
+  match o with
+  | VObj _ (("args", VList []) :: kws) => forallb (fun kv => match snd kv with VStr src => String.eqb src (expected_src blockname (fst kv)) | _ => false end) kws
+  | _ => false end.
+Definition wiring_ok (o : val) : bool :=
+  match o with
+  | VObj "ParamManager" fs =>
+      forallb (fun fb => match field_get (fst fb) fs with Some b => kws_ok (snd fb) b | None => false end) block_fields
+      && forallb (fun side => forallb (fun blk => match field_get ("_kwargs_" ++ side ++ "_" ++ snd blk) fs with
+                                                  | Some (VStr s) => String.eqb s ("kwargs_" ++ side ++ "_" ++ snd blk) | _ => false end) block_fields) ["lower"; "upper"]
+  | _ => false end.
+(* the fixed dictionaries (and every switch) reach the block they are named after *)
+Definition receives (o : val) (field_ kw : string) : option val :=
+  match o with VObj _ fs => match field_get field_ fs with Some (VObj _ kws) => field_get kw kws | _ => None end | _ => None end.
+Theorem manager_wiring rg cu :
+  exists o, yields Gi 80 (CClass "ParamManager" src_ParamManager_init) None [VStr "cosmology"] tagged rg cu o cu []
+            /\ wiring_ok o = true
+            /\ receives o "_lens_param" "kwargs_fixed" = Some (VStr "kwargs_fixed_lens")
+            /\ receives o "_kin_param" "kwargs_fixed" = Some (VStr "kwargs_fixed_kin")
+            /\ receives o "_cosmo_param" "kwargs_fixed" = Some (VStr "kwargs_fixed_cosmo")
+            /\ receives o "_source_param" "kwargs_fixed" = Some (VStr "kwargs_fixed_source")
+            /\ receives o "_los_param" "kwargs_fixed" = Some (VStr "kwargs_fixed_los")
+            /\ receives o "_lens_param" "log_scatter" = Some (VStr "log_scatter")
+            /\ receives o "_kin_param" "log_scatter" = Some (VStr "log_scatter")
+            /\ receives o "_lens_param" "gamma_pl_num" = Some (VStr "gamma_pl_num")
+            /\ receives o "_source_param" "z_apparent_m_anchor" = Some (VStr "z_apparent_m_anchor").
+Proof. eexists. split; [unfold tagged; yields_auto | vm_compute; repeat split; reflexivity]. Qed.
